@@ -65,9 +65,9 @@ theorem shouldRun_iff (cfg : Cfg) (t : Test) : shouldRun cfg t = true ↔ Select
 theorem runOneTest_eq (cfg : Cfg) (t : Test) (c : Counters) :
     runOneTest cfg t c =
       if willRun cfg t then (c.countRun, [Ev.exec t.id]) else (c.countIgnored, []) := by
-  unfold runOneTest ignoredRunOneTest utestShellRunOneTest willRun
+  unfold runOneTest ignoredRunOneTest utestShellRunOneTest willRun shellFlagAtUse
   rw [gen_ignoredRuns]
-  cases t.ignored <;> cases cfg.runIgnored <;> simp
+  cases t.ignored <;> cases cfg.runIgnored <;> cases t.flag <;> simp
 
 theorem testStep_eq (cfg : Cfg) (t : Test) (c : Counters) :
     testStep cfg t c =
@@ -477,47 +477,65 @@ theorem reverseArr_toList (a : Array Nat) : (reverseArr a).toList = a.toList.rev
 
 /-! ## the registry -/
 
-theorem Reg.WF.order_length {r : Reg} (h : r.WF) : r.order.length = r.objs.size := by
-  have := h.perm.length_eq
-  simpa using this
-
-theorem Reg.WF.nodup {r : Reg} (h : r.WF) : r.order.Nodup :=
-  h.perm.nodup_iff.mpr List.nodup_range
+theorem Reg.WF.order_length_le {r : Reg} (h : r.WF) : r.order.length ≤ r.objs.size := by
+  have hs : r.order ⊆ List.range r.objs.size := by
+    intro i hi; simpa using h.bound i hi
+  simpa using h.nodup.length_le_of_subset hs
 
 theorem Reg.WF.mkArray_toList {r : Reg} (h : r.WF) :
     (mkArray r.next r.objs.size r.head).toList = r.order :=
-  mkArray_of_linked h.linked _ (by rw [h.order_length]; omega)
+  mkArray_of_linked h.linked _ (by have := h.order_length_le; omega)
+
+theorem complete_length {r : Reg} (hc : r.Complete) : r.order.length = r.objs.size := by
+  have := hc.length_eq
+  simpa using this
 
 theorem wf_empty : Reg.empty.WF :=
   { linked := by simp [Reg.empty, Reg.order, walk]; exact Linked.nil
-    perm := by simp [Reg.empty, Reg.order, walk]
+    nodup := by simp [Reg.empty, Reg.order, walk]
+    bound := by simp [Reg.empty, Reg.order, walk]
     ids := by intro i t h; simp [Reg.empty] at h }
 
-theorem wf_addTest {r : Reg} (h : r.WF) (g n : Bytes) (ig : Bool) :
-    (r.addTest g n ig).WF ∧ (r.addTest g n ig).order = r.objs.size :: r.order := by
+theorem complete_empty : Reg.empty.Complete := by
+  simp [Reg.Complete, Reg.empty, Reg.order, walk]
+
+theorem wf_addTest {r : Reg} (h : r.WF) (g n : Bytes) (ig : Bool) (file : Bytes := []) (line : Nat := 0) :
+    (r.addTest g n ig file line).WF ∧ (r.addTest g n ig file line).order = r.objs.size :: r.order := by
   have hnot : r.objs.size ∉ r.order := by
     intro hm
-    have := h.perm.subset hm
-    simp at this
+    have := h.bound _ hm
+    omega
   have hl : Linked (setNext r.next r.objs.size r.head) (some r.objs.size) (r.objs.size :: r.order) := by
     apply Linked.cons
     have : setNext r.next r.objs.size r.head r.objs.size = r.head := by simp [setNext]
     rw [this]
     exact h.linked.setNext_of_not_mem _ _ hnot
-  have hord : (r.addTest g n ig).order = r.objs.size :: r.order := by
+  have hord : (r.addTest g n ig file line).order = r.objs.size :: r.order := by
     unfold Reg.order Reg.addTest
     simp only [Array.size_push]
-    exact walk_of_linked hl _ (by simp [h.order_length])
-  refine ⟨{ linked := ?_, perm := ?_, ids := ?_ }, hord⟩
+    exact walk_of_linked hl _ (by have := h.order_length_le; simp; omega)
+  refine ⟨{ linked := ?_, nodup := ?_, bound := ?_, ids := ?_ }, hord⟩
   · rw [hord]; exact hl
+  · rw [hord]; exact List.nodup_cons.mpr ⟨hnot, h.nodup⟩
   · rw [hord]
-    simp only [Reg.addTest, Array.size_push, List.range_succ]
-    exact (List.Perm.cons _ h.perm).trans (List.perm_append_singleton _ _).symm
+    intro i hi
+    simp only [Reg.addTest, Array.size_push]
+    simp only [List.mem_cons] at hi
+    rcases hi with rfl | hi
+    · omega
+    · have := h.bound i hi; omega
   · intro i t ht
     simp only [Reg.addTest, Array.getElem?_push] at ht
     split at ht
     · rename_i e; cases ht; exact e.symm
     · exact h.ids i t ht
+
+theorem complete_addTest {r : Reg} (h : r.WF) (hc : r.Complete) (g n : Bytes) (ig : Bool)
+    (file : Bytes := []) (line : Nat := 0) : (r.addTest g n ig file line).Complete := by
+  unfold Reg.Complete
+  rw [(wf_addTest h g n ig file line).2]
+  simp only [Reg.addTest, Array.size_push, List.range_succ]
+  exact (List.Perm.cons _ hc).trans (List.perm_append_singleton _ _).symm
 
 theorem relink_empty (a : Array Nat) (nx : Next) (h : a.size = 0) : relink a nx = nx := by
   unfold relink
@@ -539,11 +557,12 @@ theorem wf_reorder {r : Reg} (h : r.WF) (arr : Array Nat) (hp : arr.toList.Perm 
     · rfl
   have hl : Linked r'.next r'.head arr.toList := by
     rw [hnext]; exact relink_linked arr r.next hnd
-  have hlen : arr.toList.length = r.objs.size := by rw [hp.length_eq, h.order_length]
-  have hord : r'.order = arr.toList := walk_of_linked hl _ (by rw [hlen]; exact Nat.le_refl _)
-  refine ⟨{ linked := ?_, perm := ?_, ids := h.ids }, hord⟩
+  have hlen : arr.toList.length ≤ r.objs.size := by rw [hp.length_eq]; exact h.order_length_le
+  have hord : r'.order = arr.toList := walk_of_linked hl _ hlen
+  refine ⟨{ linked := ?_, nodup := ?_, bound := ?_, ids := h.ids }, hord⟩
   · rw [hord]; exact hl
-  · rw [hord]; exact hp.trans h.perm
+  · rw [hord]; exact hnd
+  · rw [hord]; intro i hi; exact h.bound i (hp.subset hi)
 
 theorem wf_reverseTests {r : Reg} (h : r.WF) :
     r.reverseTests.WF ∧ r.reverseTests.order = r.order.reverse := by
@@ -572,6 +591,415 @@ theorem wf_shuffleTests {r : Reg} (h : r.WF) (rs : List Nat) :
   unfold Reg.shuffleTests
   simp only [hsz] at this
   exact ⟨this.1, by rw [this.2]; exact hp⟩
+
+/-- `unDoLastAddTest` drops exactly the head of the list -/
+theorem wf_unDoLastAddTest {r : Reg} (h : r.WF) :
+    r.unDoLastAddTest.WF ∧ r.unDoLastAddTest.order = r.order.drop 1 := by
+  have hl := h.linked
+  generalize ho : r.order = l at hl
+  generalize hh : r.head = hd at hl
+  have key : Linked r.unDoLastAddTest.next r.unDoLastAddTest.head (l.drop 1) := by
+    cases hl with
+    | nil =>
+      simp only [Reg.unDoLastAddTest, hh]
+      exact Linked.nil
+    | cons hl' =>
+      simp only [Reg.unDoLastAddTest, hh, List.drop_succ_cons, List.drop_zero]
+      exact hl'
+  have hlen : (l.drop 1).length ≤ r.objs.size := by
+    have := h.order_length_le; rw [ho] at this; simp; omega
+  have hord : r.unDoLastAddTest.order = l.drop 1 := walk_of_linked key _ hlen
+  refine ⟨{ linked := ?_, nodup := ?_, bound := ?_, ids := h.ids }, hord⟩
+  · rw [hord]; exact key
+  · rw [hord]; exact List.Nodup.sublist (List.drop_sublist _ _) (ho ▸ h.nodup)
+  · rw [hord]; intro i hi; exact h.bound i (ho ▸ List.mem_of_mem_drop hi)
+
+/-- the shells the run loop visits are the registered ones, each exactly once -/
+theorem tests_ids {r : Reg} (h : r.WF) : r.tests.map (·.id) = r.order := by
+  unfold Reg.tests
+  have hb := h.bound
+  generalize r.order = l at hb
+  induction l with
+  | nil => rfl
+  | cons i l ih =>
+    have hi : i < r.objs.size := hb i (by simp)
+    have hget : r.objs[i]? = some r.objs[i] := by simp [hi]
+    simp only [List.filterMap_cons, hget, List.map_cons]
+    rw [h.ids i _ hget, ih (fun j hj => hb j (by simp [hj]))]
+
+theorem tests_length {r : Reg} (h : r.WF) : r.tests.length = r.order.length := by
+  have := congrArg List.length (tests_ids h)
+  simpa using this
+
+/-- changing attributes of the shells through a function that keeps ids: the list is mapped -/
+theorem tests_map_objs (r : Reg) (g : Test → Test) :
+    ({ r with objs := r.objs.map g } : Reg).tests = r.tests.map g := by
+  unfold Reg.tests Reg.order
+  simp only [Array.size_map, Array.getElem?_map]
+  generalize walk r.next r.objs.size r.head = l
+  induction l with
+  | nil => rfl
+  | cons i l ih =>
+    simp only [List.filterMap_cons]
+    cases r.objs[i]? with
+    | none => simpa using ih
+    | some t => simp [ih]
+
+theorem wf_map_objs {r : Reg} (h : r.WF) (g : Test → Test) (hg : ∀ t, (g t).id = t.id) :
+    ({ r with objs := r.objs.map g } : Reg).WF := by
+  have ho : ({ r with objs := r.objs.map g } : Reg).order = r.order := by
+    simp [Reg.order]
+  refine { linked := ?_, nodup := ?_, bound := ?_, ids := ?_ }
+  · rw [ho]; exact h.linked
+  · rw [ho]; exact h.nodup
+  · rw [ho]; intro i hi; simpa using h.bound i hi
+  · intro i t ht
+    simp only [Array.getElem?_map] at ht
+    cases hx : r.objs[i]? with
+    | none => rw [hx] at ht; simp at ht
+    | some u =>
+      rw [hx] at ht
+      simp at ht
+      subst ht
+      rw [hg]; exact h.ids i u hx
+
+theorem markRunIgnored_eq (ri : Bool) (ord : List Nat) (objs : Array Test) :
+    markRunIgnored ri ord objs =
+      objs.map (fun t => if ri && ord.contains t.id then t.setRunIgnored else t) := by
+  apply Array.ext'
+  simp [markRunIgnored]
+
+theorem setRunIgnored_id (t : Test) : t.setRunIgnored.id = t.id := by
+  unfold Test.setRunIgnored; split <;> rfl
+
+/-- after a run with run-ignored on every shell of the list has its flag set; nothing else changes -/
+theorem afterRun_tests {r : Reg} (h : r.WF) :
+    r.afterRun.tests = r.tests.map (fun t => if r.runIgnored then t.setRunIgnored else t) := by
+  unfold Reg.afterRun
+  rw [markRunIgnored_eq]
+  rw [tests_map_objs r]
+  apply List.map_congr_left
+  intro t ht
+  have hid : t.id ∈ r.order := by
+    rw [← tests_ids h]; exact List.mem_map_of_mem ht
+  cases r.runIgnored <;> simp [hid]
+
+theorem wf_afterRun {r : Reg} (h : r.WF) : r.afterRun.WF ∧ r.afterRun.order = r.order := by
+  have e : r.afterRun = { r with objs := (r.objs.map
+      (fun t => if r.runIgnored && r.order.contains t.id then t.setRunIgnored else t)) } := by
+    unfold Reg.afterRun; rw [markRunIgnored_eq]
+  rw [e]
+  refine ⟨wf_map_objs h _ ?_, by simp [Reg.order]⟩
+  intro t; split
+  · exact setRunIgnored_id t
+  · rfl
+
+theorem wf_shellSetRunIgnored {r : Reg} (h : r.WF) (i : Nat) :
+    (r.shellSetRunIgnored i).WF ∧ (r.shellSetRunIgnored i).order = r.order := by
+  have ho : (r.shellSetRunIgnored i).order = r.order := by
+    simp [Reg.shellSetRunIgnored, Reg.order]
+  refine ⟨{ linked := ?_, nodup := ?_, bound := ?_, ids := ?_ }, ho⟩
+  · rw [ho]; exact h.linked
+  · rw [ho]; exact h.nodup
+  · rw [ho]; intro j hj; simpa [Reg.shellSetRunIgnored] using h.bound j hj
+  · intro j t ht
+    simp only [Reg.shellSetRunIgnored, Array.getElem?_modify] at ht
+    split at ht
+    · cases hx : r.objs[j]? with
+      | none => rw [hx] at ht; simp at ht
+      | some u =>
+        rw [hx] at ht
+        simp at ht
+        subst ht
+        rw [setRunIgnored_id]; exact h.ids j u hx
+    · exact h.ids j t ht
+
+/-! ## runs in terms of keys; the repeat loop -/
+
+theorem runAllTests_counters (cfg : Cfg) (ts : List Test) :
+    (runAllTests cfg ts).1 = countersOfKeys (ts.map (Test.key cfg)) := by
+  obtain ⟨h1, h2, h3, h4⟩ := runLoop_counts cfg ts true {}
+  have z1 : ({} : Counters).testCount = 0 := rfl
+  have z2 : ({} : Counters).runCount = 0 := rfl
+  have z3 : ({} : Counters).ignoredCount = 0 := rfl
+  have z4 : ({} : Counters).filteredOutCount = 0 := rfl
+  rw [z1] at h1; rw [z2] at h2; rw [z3] at h3; rw [z4] at h4
+  simp only [runAllTests]
+  cases hx : (runLoop cfg true ts {}).1
+  rw [hx] at h1 h2 h3 h4
+  simp only [countersOfKeys, List.length_map, List.filter_map, Counters.mk.injEq]
+  simp only at h1 h2 h3 h4
+  refine ⟨by omega, ?_, ?_, ?_⟩
+  · rw [h2]; simp [Test.key, Function.comp_def]
+  · rw [h3]; simp [Test.key, Function.comp_def]
+  · rw [h4]; simp [Test.key, Function.comp_def]
+
+theorem runAllTests_executed (cfg : Cfg) (ts : List Test) :
+    executed (runAllTests cfg ts).2 = execOfKeys (ts.map (Test.key cfg)) := by
+  simp only [runAllTests, executed_append, runLoop_executed, execOfKeys, List.filter_map,
+    List.map_map]
+  simp [executed, Test.key, Function.comp_def]
+
+theorem runAllTests_started (cfg : Cfg) (ts : List Test) :
+    started (runAllTests cfg ts).2 = startOfKeys (ts.map (Test.key cfg)) := by
+  simp only [runAllTests, started_append, runLoop_started, startOfKeys, List.filter_map,
+    List.map_map]
+  simp [started, Test.key, Function.comp_def]
+
+theorem runOf_run (r : Reg) : RunOf r.keys r.run :=
+  ⟨runAllTests_counters _ _, by rw [Reg.run, runAllTests_executed]; exact List.Perm.refl _,
+   by rw [Reg.run, runAllTests_started]; exact List.Perm.refl _, balanced_runAllTests _ _⟩
+
+theorem countersOfKeys_perm {K K' : List Key} (h : K'.Perm K) :
+    countersOfKeys K' = countersOfKeys K := by
+  simp only [countersOfKeys, h.length_eq, (h.filter _).length_eq]
+
+theorem runOf_perm {K K' : List Key} (h : K'.Perm K) (ce : Counters × List Ev) :
+    RunOf K' ce → RunOf K ce := by
+  rintro ⟨h1, h2, h3, h4⟩
+  exact ⟨by rw [h1, countersOfKeys_perm h], h2.trans ((h.filter _).map _),
+    h3.trans ((h.filter _).map _), h4⟩
+
+theorem key_setRunIgnored (cfg : Cfg) (t : Test) (hri : cfg.runIgnored = true) :
+    Test.key cfg t.setRunIgnored = Test.key cfg t := by
+  unfold Test.key Test.setRunIgnored
+  split
+  · simp [willRun, hri, shouldRun]
+  · rfl
+
+theorem keys_afterRun {r : Reg} (h : r.WF) : r.afterRun.keys = r.keys := by
+  have hc : r.afterRun.cfg = r.cfg := rfl
+  unfold Reg.keys
+  rw [hc, afterRun_tests h, List.map_map]
+  apply List.map_congr_left
+  intro t _
+  simp only [Function.comp]
+  cases hri : r.runIgnored
+  · simp
+  · simp only [if_true]
+    exact key_setRunIgnored r.cfg t hri
+
+theorem keys_shuffleTests {r : Reg} (h : r.WF) (rs : List Nat) :
+    (r.shuffleTests rs).keys.Perm r.keys := by
+  have hc : (r.shuffleTests rs).cfg = r.cfg := rfl
+  unfold Reg.keys
+  rw [hc]
+  apply List.Perm.map
+  unfold Reg.tests
+  exact (wf_shuffleTests h rs).2.filterMap _
+
+theorem runsOf_append (a b : List ROut) : runsOf (a ++ b) = runsOf a ++ runsOf b := by
+  simp [runsOf]
+
+theorem runsOf_printTestRun (n t : Nat) : runsOf (printTestRun n t) = [] := by
+  unfold printTestRun; split <;> simp [runsOf]
+
+/-- the repeat loop: `k` repetitions, each of which runs every selected test exactly once;
+    the list stays a proper list holding the same shells -/
+theorem repeatLoop_spec (shuf : Bool) (total : Nat) :
+    ∀ (k lc : Nat) (r : Reg) (rs : List Nat), r.WF →
+      (repeatLoop shuf total k lc r rs).reg.WF ∧
+      (repeatLoop shuf total k lc r rs).reg.order.Perm r.order ∧
+      (runsOf (repeatLoop shuf total k lc r rs).out).length = k ∧
+      (∀ ce ∈ runsOf (repeatLoop shuf total k lc r rs).out, RunOf r.keys ce) ∧
+      (repeatLoop shuf total k lc r rs).failed = (if ranNothing (countersOfKeys r.keys) then k else 0)
+  | 0, lc, r, rs, h => by
+    simp [repeatLoop, runsOf]
+    exact h
+  | k + 1, lc, r, rs, h => by
+    simp only [repeatLoop]
+    generalize hr1 : (if shuf = true then r.shuffleTests (rs.take (randsNeeded r.order.length)) else r) = r1
+    have h1 : r1.WF ∧ r1.order.Perm r.order ∧ r1.keys.Perm r.keys := by
+      subst hr1
+      cases shuf
+      · exact ⟨h, List.Perm.refl _, List.Perm.refl _⟩
+      · exact ⟨(wf_shuffleTests h _).1, (wf_shuffleTests h _).2, keys_shuffleTests h _⟩
+    obtain ⟨hw1, ho1, hk1⟩ := h1
+    have ha := wf_afterRun hw1
+    have ih := repeatLoop_spec shuf total k (lc + 1) r1.afterRun
+      (if shuf = true then rs.drop (randsNeeded r.order.length) else rs) ha.1
+    obtain ⟨i1, i2, i3, i4, i5⟩ := ih
+    have hkeys : r1.afterRun.keys.Perm r.keys := by rw [keys_afterRun hw1]; exact hk1
+    refine ⟨i1, ?_, ?_, ?_, ?_⟩
+    · rw [ha.2] at i2; exact i2.trans ho1
+    · simp only [runsOf_append, runsOf_printTestRun, List.nil_append, List.length_append, i3]
+      simp [runsOf]; omega
+    · intro ce hce
+      simp only [runsOf_append, runsOf_printTestRun, List.nil_append, List.mem_append] at hce
+      rcases hce with hce | hce
+      · simp [runsOf] at hce
+        subst hce
+        exact runOf_perm hk1 _ (runOf_run r1)
+      · exact runOf_perm hkeys _ (i4 ce hce)
+    · rw [i5]
+      have e1 : r1.run.1 = countersOfKeys r.keys := by
+        rw [(runOf_run r1).1, countersOfKeys_perm hk1]
+      have e2 : countersOfKeys r1.afterRun.keys = countersOfKeys r.keys := countersOfKeys_perm hkeys
+      rw [e1, e2]
+      split <;> omega
+
+/-! ## queries -/
+
+theorem findTestWithName_eq (name : Bytes) : ∀ ts : List Test,
+    findTestWithName name ts = (ts.find? (fun t => t.name == name)).map (·.id)
+  | [] => rfl
+  | t :: rest => by
+    simp only [findTestWithName, List.find?_cons]
+    cases t.name == name <;> simp [findTestWithName_eq name rest]
+
+theorem findTestWithGroup_eq (group : Bytes) : ∀ ts : List Test,
+    findTestWithGroup group ts = (ts.find? (fun t => t.group == group)).map (·.id)
+  | [] => rfl
+  | t :: rest => by
+    simp only [findTestWithGroup, List.find?_cons]
+    cases t.group == group <;> simp [findTestWithGroup_eq group rest]
+
+theorem countTestsList_eq : ∀ ts : List Test, countTestsList ts = ts.length
+  | [] => rfl
+  | _ :: rest => by simp [countTestsList, countTestsList_eq rest]
+
+theorem getTestWithNext_null : ∀ ts : List Test,
+    getTestWithNext none ts = ts.getLast?.map (·.id)
+  | [] => rfl
+  | [t] => by simp [getTestWithNext]
+  | t :: n :: rest => by
+    simp only [getTestWithNext, List.getLast?_cons_cons]
+    simpa using getTestWithNext_null (n :: rest)
+
+/-- nobody's successor: the head of the list, or a shell that is not in the list -/
+theorem getTestWithNext_not_in_tail (i : Nat) : ∀ ts : List Test,
+    i ∉ (ts.drop 1).map (·.id) → getTestWithNext (some i) ts = none
+  | [], _ => rfl
+  | [t], _ => by simp [getTestWithNext]
+  | t :: n :: rest, h => by
+    simp only [List.drop_succ_cons, List.drop_zero, List.map_cons, List.mem_cons, not_or] at h
+    have hne : ¬ (some i = some n.id) := by
+      intro e; exact h.1 (Option.some.inj e)
+    simp only [getTestWithNext, hne, if_false]
+    exact getTestWithNext_not_in_tail i (n :: rest) (by simpa using h.2)
+
+theorem getTestWithNext_pred (p x : Test) (post : List Test) : ∀ pre : List Test,
+    ((pre ++ p :: x :: post).map (·.id)).Nodup →
+    getTestWithNext (some x.id) (pre ++ p :: x :: post) = some p.id
+  | [], _ => by simp [getTestWithNext]
+  | [a], h => by
+    have hne : p.id ≠ x.id := by
+      simp only [List.cons_append, List.nil_append, List.map_cons, List.nodup_cons, List.mem_cons,
+        not_or] at h
+      exact h.2.1.1
+    have : ¬ (some x.id = some p.id) := fun e => hne (Option.some.inj e).symm
+    simp [getTestWithNext, this]
+  | a :: b :: pre, h => by
+    have hn : ((b :: pre ++ p :: x :: post).map (·.id)).Nodup := by
+      simp only [List.cons_append, List.map_cons, List.nodup_cons] at h ⊢
+      exact h.2
+    have hne : b.id ≠ x.id := by
+      simp only [List.cons_append, List.map_cons, List.nodup_cons, List.mem_map, List.mem_append,
+        List.mem_cons] at hn
+      intro e
+      exact hn.1 ⟨x, Or.inr (Or.inr (Or.inl rfl)), e.symm⟩
+    have : ¬ (some x.id = some b.id) := fun e => hne (Option.some.inj e).symm
+    simp only [List.cons_append, getTestWithNext, this, if_false]
+    exact getTestWithNext_pred p x post (b :: pre) hn
+
+/-! ## list modes -/
+
+theorem lgLoop_eq_accLoop : ∀ (ts : List Test) (acc : Bytes),
+    lgLoop ts acc = accLoop (ts.map groupEntry) acc
+  | [], _ => rfl
+  | t :: rest, acc => by
+    simp only [lgLoop, List.map_cons, accLoop, groupEntry]
+    split
+    · exact lgLoop_eq_accLoop rest acc
+    · exact lgLoop_eq_accLoop rest _
+
+/-- `-ln` lists exactly the tests the filters select (the others are counted as filtered out) -/
+theorem lnLoop_eq (cfg : Cfg) : ∀ (ts : List Test) (acc : Bytes) (c : Counters),
+    (lnLoop cfg ts acc c).1 = accLoop ((ts.filter (shouldRun cfg)).map groupDotName) acc ∧
+    (lnLoop cfg ts acc c).2 =
+      { c with filteredOutCount := c.filteredOutCount + (ts.filter (fun t => !shouldRun cfg t)).length }
+  | [], _, _ => by simp [lnLoop, accLoop]
+  | t :: rest, acc, c => by
+    simp only [lnLoop]
+    cases hs : shouldRun cfg t
+    · have ih := lnLoop_eq cfg rest acc c.countFilteredOut
+      simp only [Bool.false_eq_true, if_false, List.filter_cons, hs, Bool.not_false, if_true,
+        List.length_cons]
+      refine ⟨ih.1, ?_⟩
+      rw [ih.2]
+      simp only [Counters.countFilteredOut]
+      congr 1; omega
+    · simp only [if_true, List.filter_cons, hs, List.map_cons, accLoop, Bool.not_true,
+        Bool.false_eq_true, if_false]
+      split
+      · exact lnLoop_eq cfg rest acc c
+      · exact lnLoop_eq cfg rest _ c
+
+theorem isInfix_mono (acc x b : Bytes) (h : Text.isInfix acc b = true) :
+    Text.isInfix (acc ++ x) b = true := by
+  rw [isInfix_iff] at h ⊢
+  exact h.trans (List.prefix_append acc x).isInfix
+
+theorem isInfix_self_mid (acc e x : Bytes) : Text.isInfix (acc ++ e ++ x) e = true := by
+  rw [isInfix_iff]
+  exact List.infix_append acc e x
+
+/-- what the accumulation holds: the entries of a duplicate-free sublist (order kept) of the
+    given entries, none of which occurred before -/
+theorem accLoop_structure : ∀ (es : List Bytes) (acc : Bytes),
+    ∃ ds : List Bytes, ds.Sublist es ∧ accLoop es acc = acc ++ encEntries ds ∧ ds.Nodup ∧
+      ∀ d ∈ ds, Text.isInfix acc d = false
+  | [], acc => ⟨[], List.Sublist.refl _, by simp [accLoop, encEntries], List.nodup_nil, by simp⟩
+  | e :: es, acc => by
+    simp only [accLoop]
+    cases he : Text.isInfix acc e
+    · obtain ⟨ds, h1, h2, h3, h4⟩ := accLoop_structure es (acc ++ e ++ [space])
+      refine ⟨e :: ds, h1.cons_cons e, ?_, ?_, ?_⟩
+      · simp only [Bool.false_eq_true, if_false]
+        rw [h2]
+        simp only [encEntries, List.flatMap_cons, List.append_assoc]
+      · refine List.nodup_cons.mpr ⟨?_, h3⟩
+        intro hm
+        have := h4 e hm
+        rw [isInfix_self_mid] at this
+        cases this
+      · intro d hd
+        simp only [List.mem_cons] at hd
+        rcases hd with rfl | hd
+        · exact he
+        · cases hx : Text.isInfix acc d
+          · rfl
+          · have := isInfix_mono acc (e ++ [space]) d hx
+            rw [← List.append_assoc] at this
+            rw [h4 d hd] at this
+            cases this
+    · obtain ⟨ds, h1, h2, h3, h4⟩ := accLoop_structure es acc
+      exact ⟨ds, h1.cons e, by simpa using h2, h3, h4⟩
+
+/-- nothing is missing: every given entry occurs in the accumulated text -/
+theorem accLoop_complete : ∀ (es : List Bytes) (acc : Bytes),
+    (∀ b, Text.isInfix acc b = true → Text.isInfix (accLoop es acc) b = true) ∧
+    ∀ e ∈ es, Text.isInfix (accLoop es acc) e = true
+  | [], acc => by simp [accLoop]
+  | e :: es, acc => by
+    simp only [accLoop]
+    cases he : Text.isInfix acc e
+    · obtain ⟨m, c⟩ := accLoop_complete es (acc ++ e ++ [space])
+      simp only [Bool.false_eq_true, if_false]
+      refine ⟨fun b hb => m b (by rw [List.append_assoc]; exact isInfix_mono acc _ b hb), ?_⟩
+      intro d hd
+      simp only [List.mem_cons] at hd
+      rcases hd with rfl | hd
+      · exact m _ (isInfix_self_mid acc _ [space])
+      · exact c d hd
+    · obtain ⟨m, c⟩ := accLoop_complete es acc
+      simp only [if_true]
+      refine ⟨m, ?_⟩
+      intro d hd
+      simp only [List.mem_cons] at hd
+      rcases hd with rfl | hd
+      · exact m _ he
+      · exact c d hd
 
 /-! ## group blocks -/
 
